@@ -31,6 +31,10 @@ pub trait RefAny: Send + Sync {
 	fn key(&self) -> String {
 		String::new()
 	}
+	/// the inputs the definition currently looks at, oldest first (for extra diagnostics)
+	fn window(&self) -> Option<Vec<f64>> {
+		None
+	}
 }
 impl Clone for Box<dyn RefAny> {
 	fn clone(&self) -> Self {
@@ -143,6 +147,8 @@ pub struct MSys {
 	pub positions: Option<fn(usize) -> Vec<u32>>,
 	/// compare peek() after every step
 	pub check_peek: bool,
+	/// additional observer evaluated after every step
+	pub extra: Option<fn(&dyn Subject, &dyn RefAny) -> Result<(), Failure>>,
 }
 
 #[derive(Clone)]
@@ -244,6 +250,11 @@ impl System for MSys {
 					n.prev = *a;
 					return Step::ViolationContinue(n, f);
 				}
+			}
+		}
+		if let Some(x) = self.extra {
+			if let Err(f) = x(n.imp.as_ref(), n.rf.as_ref()) {
+				return Step::Violation(f);
 			}
 		}
 		n.last_out = Some(out);
